@@ -30,6 +30,7 @@ LAYOUTS = {
     'three': ([[0.1], [-0.3], [0.2]], [[0.0], [0.15], [0.36]]),
     'two_dirs': ([[0.0, 0.02], [0.3, 0.28]], [[0.05, 0.07], [-0.25, -0.22]]),
     'one_two_dirs': ([[0.1, -0.15]], [[0.2, 0.1]]),
+    'spread6': ([[0.0], [1.4], [-1.3], [0.2], [-0.9], [1.1]], [[0.0], [0.3], [0.8], [-1.5], [-1.0], [1.2]]),
 }
 
 
@@ -40,7 +41,7 @@ def plan(tier, seed):
         if tier == 'quick' and (nsides.index(nside) + list(LAYOUTS).index(lay) + len(kind)) % 2:
             continue
         for samp in ('grid', 'perm', 'single'):
-            if samp != 'grid' and (tier == 'quick' and lay not in ('two', 'two_dirs')):
+            if samp != 'grid' and (tier == 'quick' and lay not in ('two', 'two_dirs', 'spread6')):
                 continue
             cases.append({'nside': nside, 'kind': kind, 'lay': lay, 'samp': samp})
     return [
